@@ -196,6 +196,14 @@ def run_harness(h, ov, base_target, workdir):
     text = open(logpath, errors="replace").read()
     pr = parse_log(text)
     state, detail = classify(h, pr, rc, to)
+    if state != "ok":
+        # keep the log of anything that is not a clean pass (debugging aid; build/ is not tracked)
+        d = os.path.join(VERIF, "build", "lastlogs")
+        os.makedirs(d, exist_ok=True)
+        try:
+            shutil.copy(logpath, os.path.join(d, h.short + ".log"))
+        except OSError:
+            pass
     return {"h": h, "rc": rc, "timed_out": to, "wall": wall, "parsed": pr, "state": state,
             "detail": detail, "log": logpath, "tdir": tdir, "cmd": " ".join(cmd)}
 
@@ -329,7 +337,10 @@ def main(argv):
         todo = [(h, bases[k]) for k, ghs in groups.items() if k in bases for h in ghs]
         # heaviest first
         todo.sort(key=lambda x: -x[0].timeout)
-        with cf.ThreadPoolExecutor(max_workers=max(1, min(a.jobs, P.jobs))) as ex:
+        # memory-aware parallelism: service-profile harnesses need 10-25 GB each
+        heavy = any(h.mem_gb >= 20 for h, _ in todo)
+        workers = max(1, min(a.jobs, P.jobs, 3 if heavy else 12))
+        with cf.ThreadPoolExecutor(max_workers=workers) as ex:
             futs = [ex.submit(run_harness, h, ov, b, root) for h, b in todo]
             for f in cf.as_completed(futs):
                 r = f.result()
